@@ -33,6 +33,7 @@ CONSTANTS
   Types = {%(types)s}
   WithFill = TRUE
   WithMaxTx = TRUE
+  WithConc = %(conc)s
 VIEW cvars
 %(rest)s
 CHECK_DEADLOCK FALSE
@@ -124,8 +125,11 @@ def run(ctx):
         "tx hashes are 32 bytes; the Reserved field of MiniBlock is empty",
         "TLC integers are 32-bit: counts are bounded so that every product stays below 2^31; the uint32 wrap-around of the "
         "estimate in the Go code (more than ~126 million tx hashes) is out of reach and not explored",
+        "AddNumMiniBlocks / AddNumTxs are atomic (commutative) increments, as their documentation promises: after concurrent "
+        "accounting the counters are the sum of all increments whatever the interleaving (concurrency stage: 8 real goroutines "
+        "behind a spin barrier, one call per miniblock / tx hash; needs >1 CPU to interleave)",
         "shard ids are handled as int32 views of the uint32 ids (-1 = metachain 0xFFFFFFFF, -16 = all shards 0xFFFFFFF0)")
-    base = dict(maxsize=maxsize, netlimit=netlimit, log="LogLast")
+    base = dict(maxsize=maxsize, netlimit=netlimit, log="LogLast", conc="TRUE")
     mid = (minsize + maxsize) // 2
     # ---- R1a: the calibration as coded -> TLC must find the counterexample
     d = ctx.tlc(sd, "MC_BodySize", _cfg(sd, "defect.cfg", depth=1, calibs='"asCoded"', curmaxes=str(maxsize), counts="1",
@@ -159,7 +163,7 @@ def run(ctx):
     beh = ctx.path("edges.ndjson")
     gen = dict(counts="1, 1000", ntxs="0, 1, 10, 482", ids='"zero", "cal", "metaall"', types="0, 255")
     g = ctx.tlc(sd, "MC_BodySize", _cfg(sd, "gen.cfg", depth=2, calibs='"asCoded", "worstCase"', curmaxes=str(mid),
-                                        rest="ACTION_CONSTRAINT EmitEdge", **dict(dict(base, log="LogAppend"), **gen)),
+                                        rest="ACTION_CONSTRAINT EmitEdge", **dict(dict(base, log="LogAppend", conc="FALSE"), **gen)),
                 timeout=3000, behaviours_out=beh, count=False, allow=("invariant",))
     if g.ok and g.behaviours == 0:
         ctx.broken.append("behaviour export produced nothing")
@@ -169,7 +173,7 @@ def run(ctx):
         sim = dict(counts="1, 10, 1000", ntxs="0, 1, 3, 10, 481, 482", ids='"zero", "b127", "cal", "big", "tometa", "metaall"',
                    types="0, 90, 255")
         cfgname = _cfg(sd, "sim.cfg", depth=3, calibs='"asCoded", "worstCase"', curmaxes="%d, %d" % (maxsize, mid),
-                       rest="ACTION_CONSTRAINT EmitFull", **dict(dict(base, log="LogAppend"), **sim))
+                       rest="ACTION_CONSTRAINT EmitFull", **dict(dict(base, log="LogAppend", conc="FALSE"), **sim))
         txt = open(os.path.join(sd, cfgname)).read().replace("VIEW cvars\n", "")
         open(os.path.join(sd, cfgname), "w").write(txt)
         ctx.tlc(sd, "MC_BodySize", cfgname, simulate=120, depth=4, timeout=3000, behaviours_out=beh2, count=False)
@@ -195,7 +199,11 @@ def run(ctx):
     vlib.validate_trace(ctx, sd, "Trace_BodySize", "TraceKnown_BodySize.cfg", tr, 0, pre, divergence_is_violation=False,
                         obs_cfg="TraceKnownObs_BodySize.cfg", what="blockSizeComputation trace (random proposer loops)")
     if st == "accepted":
-        ctx.cov(traces_validated_against_impl=nt, evaluations=nev)
+        ctx.cov(traces_validated_against_impl=nt + int(r3.stats.get("concurrent_rounds", 0)), evaluations=nev)
+    ctx.cov(concurrent_accounting_rounds=r3.stats.get("concurrent_rounds"),
+            concurrent_rounds_violating_on_real_numbers=r3.stats.get("concurrent_violating_rounds"))
+    if r3.rc == 0 and not r3.stats.get("concurrent_rounds"):
+        ctx.broken.append("R3: the concurrency stage did not run")
     lap("R3")
     if not q and st == "accepted":
         def corrupt(evs):
